@@ -9,6 +9,25 @@ XP_KNOWN_GAPS = ('unknown directive "license_token"', 'unknown directive "deploy
 # clauses of the Lean judge that crossplane's parser/analyser can also see
 XP_VISIBLE = {"syntax", "arity", "bad-context", "unknown-directive", "block-mismatch", "include-missing"}
 REWRITE_SUFFIXES = ("([^?]*)?", "(?:/([^?]*))?")
+# stage 2 (Model/Render): top-level directives of http.conf the render tie may ignore (RenderTie.knownDropped)
+RENDER_KNOWN_DROPPED = {"http2", "map", "upstream"}
+# clauses of the big judge that the small structural judge Render.wfDirs restates (subject of render_wellformed_fragment)
+WF_CLAUSES = {"duplicate-listen-server-name", "duplicate-default-server", "duplicate-location", "match-key-missing",
+              "redirect-target-missing", "variable-name-not-lexable", "duplicate-variable-definition", "bad-split-entry",
+              "bad-percent", "percent-total", "unknown-variable", "bad-variable-syntax"}
+
+
+def _wf_relevant(c, d):
+    """restriction of a big-judge issue to what wfDirs looks at (http.conf: servers, locations, split_clients, proxy_pass)"""
+    if c not in WF_CLAUSES:
+        return False
+    if c in ("unknown-variable", "bad-variable-syntax"):
+        return d.startswith("proxy_pass ")
+    if c == "variable-name-not-lexable":
+        return d.startswith("split_clients ")
+    if c == "duplicate-variable-definition":
+        return d.startswith("http $group_")
+    return True
 
 
 def classify(issue, case, all_issues):
@@ -62,8 +81,10 @@ def classify(issue, case, all_issues):
 def run(ctx):
     ctx.prepare()
     ctx.obligations("NGF.Props.C03")
+    ctx.obligations("NGF.Props.C03Render")
     if ctx.tier == "thorough":
         ctx.leanchecker("NGF.Props.C03")
+        ctx.leanchecker("NGF.Props.C03Render")
 
     n = 1000 if ctx.tier == "quick" else 20000
     lines = ctx.harness(["-seed", ctx.seed, "-n", n])
@@ -79,6 +100,8 @@ def run(ctx):
     tokens = names = dirs = clean = evaluated = panics = 0
     lexdiffs, namediffs, xp_only, regex_stats = [], [], [], collections.Counter()
     regex_false_alarm = []
+    wf_agree = wf_issues = 0
+    wf_disagree = []
     distinct, samples = set(), []
     reported = set()
     for raw, v, m in zip(lines, verdicts, models):
@@ -118,6 +141,14 @@ def run(ctx):
                 reported.add(sig)
                 ctx.finding(sig, f"generated configuration is not loadable: {i['c']}: {i['d'][:300]}",
                             _replay(ctx, case, i))
+        # the small structural judge (subject of render_wellformed_fragment) against the big judge, clause by clause
+        big = {(i["c"], i["d"]) for i in issues if _wf_relevant(i["c"], i["d"])}
+        small = {(i["c"], i["d"]) for i in v.get("wf", [])}
+        wf_issues += len(small)
+        if big == small:
+            wf_agree += 1
+        else:
+            wf_disagree.append({"id": case["id"], "only_big_judge": sorted(big - small)[:3], "only_wfDirs": sorted(small - big)[:3]})
         if len(samples) < 4 and issues == [] and "proxy_pass" in http:
             samples.append({"id": case["id"], "tags": case.get("tags", []), "files": [f["p"] for f in case["files"]]})
         # trusted NGINX model against crossplane (independent implementation)
@@ -146,6 +177,10 @@ def run(ctx):
         ctx.broken(f"Mangle model and the real naming functions disagree: {d}", replay=d)
     if evaluated and clean == 0:
         ctx.broken("no generated file set passed the judge: generator or judge degenerate")
+    for d in wf_disagree[:3]:
+        ctx.broken(f"Render.wfDirs and Spec/WellFormedConf disagree on a real http.conf: {d}", replay=d)
+
+    frag = _render_stream(ctx)
 
     ctx.finish({
         "evaluations": evaluated,
@@ -162,11 +197,15 @@ def run(ctx):
         "lexer_disagreements": len(lexdiffs),
         "crossplane_only_errors": len(xp_only),
         "directives_judged": dirs,
-        "traces_validated_against_impl": names,
+        "traces_validated_against_impl": names + frag.get("equal", 0),
         "name_mangling_observations": names,
         "name_mangling_disagreements": len(namediffs),
         "regex_lean_vs_go": dict(regex_stats),
         "panics": panics,
+        "wfDirs_vs_big_judge_file_sets_agreeing": wf_agree,
+        "wfDirs_vs_big_judge_disagreements": len(wf_disagree),
+        "wfDirs_issues_on_real_files": wf_issues,
+        "render_tie": frag,
     }, assumptions=[
         "NGINX's configuration-time behaviour is the Lean model Spec/WellFormedConf + Model/NginxLex/NginxParse (no nginx binary "
         "in the sandbox); it is cross-checked against nginx-go-crossplane's lexer on every generated file and its analyser on "
@@ -179,6 +218,79 @@ def run(ctx):
         "variable scanning, PCRE-subset parser, unix socket path limit",
         "nginx-go-crossplane v0.4.71 as second opinion (known gap: Plus R33 mgmt directives license_token/deployment_context)",
     ])
+
+
+def _render_stream(ctx):
+    """Stage 2: translation validation of Model/Render. Scenarios of C02's fragment profile run through the real pipeline;
+    the Lean driver (mode render) parses the REAL http.conf / matches.json and compares with render (genR s order)."""
+    n = 150 if ctx.tier == "quick" else 4000
+    lines = ctx.harness(["-seed", ctx.seed, "-fragment", n]) or []
+    frag = collections.Counter()
+    outside = collections.Counter()
+    if not lines:
+        ctx.broken("fragment stream of harness/c03 produced nothing")
+        return {}
+    res = ctx.driver("render", lines)
+    diffs = 0
+    seen_sigs = set()
+    for raw, r in zip(lines, res):
+        case = json.loads(raw)
+        frag["scenarios"] += 1
+        if case.get("panic"):
+            frag["panics"] += 1
+            continue
+        r = json.loads(r)
+
+        def rep(extra):
+            idx = int(case["id"].rsplit("-", 1)[1])
+            d = {"id": case["id"], "flat": case.get("flat"), "http": case.get("http"), "matches": case.get("matches"),
+                 "how": f"harness/cmd/c03 -seed {ctx.seed} -fragment {idx + 1} -only {idx} regenerates the case with its objects; "
+                        "ngfdriver_C03 render reads the line"}
+            d.update(extra)
+            return d
+        if "error" in r:
+            ctx.broken(f"render mode could not decode a harness line: {r}", replay=rep({}))
+            continue
+        if not r.get("inFragment"):
+            outside[r.get("why", "")[:70]] += 1
+            continue
+        frag["in_fragment"] += 1
+        frag["names_safe"] += bool(r.get("namesSafe"))
+        for k in ("dirs", "servers", "locations", "splits", "keys"):
+            frag[k + "_compared"] += r.get(k, 0)
+        frag["scenarios_with_several_ports"] += r.get("ports", 0) > 1
+        frag["scenarios_with_njs_keys"] += r.get("keys", 0) > 0
+        frag["scenarios_with_split_clients"] += r.get("splits", 0) > 0
+        unknown = [x for x in r.get("dropped", []) if x not in RENDER_KNOWN_DROPPED]
+        if unknown:
+            ctx.broken(f"http.conf has top-level directives the render tie neither compares nor lists as ignored: {unknown}",
+                       replay=rep({"dropped": unknown}))
+        if r.get("equal") and r.get("matchesEqual"):
+            frag["equal"] += 1
+        else:
+            diffs += 1
+            frag["differs"] += 1
+            if diffs <= 3:
+                what = r.get("diff") or r.get("matchesDiff")
+                ctx.broken("Model/Render and the real generator disagree (parsed http.conf / matches.json ≠ render (genR s)): "
+                           + what[:900], replay=rep({"diff": r.get("diff"), "matchesDiff": r.get("matchesDiff")}))
+        # the theorem render_wellformed_fragment, executed; and the same judge on the real file
+        if r.get("wfModel") and r.get("namesSafe"):
+            frag["theorem_falsified"] += 1
+            ctx.broken(f"render_wellformed_fragment is false on a generated input: {r['wfModel'][:3]}", kind="obligation",
+                       replay=rep({"issues": r["wfModel"]}))
+        for i in r.get("wfReal", []):
+            frag["wf_issues_on_real"] += 1
+            if (i["c"], "fragment") in seen_sigs:
+                continue
+            seen_sigs.add((i["c"], "fragment"))
+            ctx.finding(f"C03:{i['c']}:fragment", f"generated configuration of a fragment scenario is not loadable: {i['c']}: {i['d'][:300]}",
+                        rep({"issue": i}))
+    if frag["scenarios"] and frag["in_fragment"] * 2 < frag["scenarios"]:
+        ctx.broken(f"render tie nearly vacuous: only {frag['in_fragment']} of {frag['scenarios']} scenarios inside the fragment: {dict(outside)}")
+    out = dict(frag)
+    out["outside_fragment_reasons"] = dict(outside)
+    return out
 
 
 def _drive_parallel(ctx, lines, parts=6):
